@@ -176,7 +176,7 @@ def run_property(prop, tier, seed, replay_path, t0):
                     suite, nq, nt = s[0], s[1], s[2]
                     extra = s[3] if len(s) > 3 else ()
                     n = nq if tier == 'quick' else nt
-                    if rep and suite in ('allocs', 'stress', 'names', 'lexx', 'acrhx', 'treex', 'validatex', 'servex', 'ip6x'):
+                    if rep and suite in ('allocs', 'stress', 'names', 'lexx', 'acrhx', 'treex', 'validatex', 'servex', 'ip6x', 'historyx'):
                         continue    # deterministic or already long-running suites are not repeated
                     sseed = seed * 1000003 + k + 7919 * rep
                     try:
